@@ -1,7 +1,7 @@
 (* C07 — Every string that is not a valid RFC 9535 query is rejected.  Statements only.
    The whole-language statement is kept visible and is NOT proved (partial): *)
 From Coq Require Import List NArith ZArith Bool.
-From JP Require Import Base Ast Peg Dec2Bin Known Build Concrete BuildFacts FragParse FragBuild FragWs GenParse GenBuild FilterParse FilterBuild RejectFacts RejectMore RejectRange RejectBlank RejectTyping PegAlpha.
+From JP Require Import Base Ast Peg Dec2Bin Known Build Concrete BuildFacts FragParse FragBuild FragWs GenParse GenBuild FilterParse FilterBuild RejectFacts RejectMore RejectRange RejectBlank RejectTyping PegAlpha PegTree TokenFacts.
 From JP.gen Require Import Grammar.
 Import ListNotations.
 
@@ -213,6 +213,28 @@ Print Assumptions C07_control_char_anywhere_rejected.
 Example C07_control_chars_meant : visible_or_blank 0 = false /\ visible_or_blank 8 = false /\ visible_or_blank 31 = false
   /\ visible_or_blank 9 = true /\ visible_or_blank 32 = true /\ visible_or_blank 127 = true.
 Proof. repeat split. Qed.
+
+(* ---- for EVERY input string and EVERY token of the pair tree the grammar hands to parser.rs (PegTree.run_subtree: each pair
+   of the tree is witnessed by a successful run of its own rule over its own span; TokenFacts.v inverts the rule):
+   an [int] token - index selectors, slice parts, indices of singular queries - is "0" or an optional minus, a non-zero digit
+   and digits: a leading zero or -0 is never tokenised as an integer, wherever it stands in the query;
+   a [string] token - name selectors, string literals, names in singular queries - has no character below U+0020,
+   TAB / LF / CR included. *)
+Theorem C07_int_tokens_canonical : forall s st en kids,
+  inforest rname (Pair R_int st en kids) (parse_tokens s) -> canon_int (slice s st en) = true.
+Proof. exact int_token_canonical. Qed.
+Print Assumptions C07_int_tokens_canonical.
+Theorem C07_string_tokens_have_no_control_chars : forall s st en kids,
+  inforest rname (Pair R_string st en kids) (parse_tokens s) -> forallb ge32 (slice s st en) = true.
+Proof. exact string_token_no_control. Qed.
+Print Assumptions C07_string_tokens_have_no_control_chars.
+Example C07_canonical_means : (forall d r, canon_int (48%N :: d :: r) = false) /\ (forall r, canon_int (45%N :: 48%N :: r) = false)
+  /\ canon_int [48%N] = true /\ canon_int [45; 49; 48]%N = true /\ canon_int [43; 49]%N = false /\ ge32 9 = false /\ ge32 32 = true.
+Proof. repeat split. Qed.
+Example C07_tokens_exist :
+  inforest rname (Pair R_int 2 4 []) (parse_tokens ex_input) /\ inforest rname (Pair R_string 6 9 []) (parse_tokens ex_input)
+  /\ slice ex_input 2 4 = [49; 50]%N /\ slice ex_input 6 9 = [39; 97; 39]%N.
+Proof. exact tokens_exist. Qed.
 
 (* near-misses, evaluated inside Coq on the grammar of this run (a test, not the unbounded claim) *)
 Definition rejected (s : str) : bool := match parse_query s with PErr => true | _ => false end.
